@@ -162,11 +162,20 @@ pub fn run(sc: &Value) -> Vec<String> {
         }
         for (f, d) in files.iter().zip(datas.iter()) {
             let mut mf = attohttpc::MultipartFile::new(gs(f, "name"), d);
+            // (either order of the two optional calls: neither may undo the other)
+            let type_first = gu(f, "seed") % 2 == 1;
+            if type_first {
+                if let Some(m) = gso(f, "mime") {
+                    mf = mf.with_type(m).map_err(|e| format!("mime:{}", err_kind(&e)))?;
+                }
+            }
             if let Some(fname) = gso(f, "filename") {
                 mf = mf.with_filename(fname);
             }
-            if let Some(m) = gso(f, "mime") {
-                mf = mf.with_type(m).map_err(|e| format!("mime:{}", err_kind(&e)))?;
+            if !type_first {
+                if let Some(m) = gso(f, "mime") {
+                    mf = mf.with_type(m).map_err(|e| format!("mime:{}", err_kind(&e)))?;
+                }
             }
             b = b.with_file(mf);
         }
@@ -260,8 +269,8 @@ pub fn generate(seed: u64, tier: &str) -> Vec<Value> {
     let mut r = Rng::new(seed ^ 0x15);
     let mut out = Vec::new();
     let mut id = 0usize;
-    let names = ["field", "a b", "ünïcode", "semi;colon", "eq=sign", "name.with.dots", "x"];
-    let fnames = ["file.bin", "my file.txt", "päth.dat", "a;b=c.tar.gz", "noext"];
+    let names = ["field", "a b", "ünïcode", "semi;colon", "eq=sign", "name.with.dots", "x", "share%", "rate%20"];
+    let fnames = ["file.bin", "my file.txt", "päth.dat", "a;b=c.tar.gz", "noext", "growth 100%.bin", "payload.json", "page.html"];
     let mimes = ["text/plain", "application/octet-stream", "image/png", "text/html; charset=utf-8", "application/vnd.api+json"];
     let classes = ["bytes", "crlf", "lookalike", "bytes", "hint"];
     let mut push = |out: &mut Vec<Value>, texts: Vec<Value>, files: Vec<Value>| {
